@@ -36,6 +36,9 @@ type vpBcastEnv struct {
 	stopInCallback bool
 	stopStarted    bool
 	stopDone       chan struct{}
+	// rebroadcast callbacks wait here while the harness delivers another block
+	holding bool
+	hold    chan struct{}
 }
 
 // VerifH_C15_handler: up to `events` events (broadcast request with
@@ -63,6 +66,9 @@ func VerifH_C15_handler() {
 			}
 			e.calls = append(e.calls, c)
 			if !e.inRequest {
+				if e.holding {
+					<-e.hold
+				}
 				if e.stopInCallback && !e.stopStarted {
 					e.stopStarted = true
 					go func() {
@@ -91,9 +97,56 @@ func VerifH_C15_handler() {
 	accepted := map[chainhash.Hash]bool{}  // ever accepted (incl. already in mempool)
 	confirmed := map[chainhash.Hash]bool{} // reported confirmed
 	rejected := map[chainhash.Hash]bool{}
+	// checkBatch: the calls made since `before` are exactly one rebroadcast of
+	// the pending set (accepted and not confirmed), parents before children
+	checkBatch := func(before, batch int) {
+		// the batch is exactly accepted \ confirmed, parents before children
+		var got []chainhash.Hash
+		for _, c := range e.calls[before:] {
+			vpAssert(!c.initial && c.batch == batch, "calls-after-a-block-belong-to-its-rebroadcast")
+			got = append(got, c.tx)
+		}
+		want := 0
+		for _, h := range hashes {
+			pending := accepted[h] && !confirmed[h]
+			n := 0
+			for _, g := range got {
+				if g == h {
+					n++
+				}
+			}
+			if pending {
+				want++
+				vpAssert(n == 1, "pending-tx-is-rebroadcast-once-per-block")
+			} else {
+				vpAssert(n == 0, "confirmed-rejected-or-unknown-tx-is-not-rebroadcast")
+			}
+		}
+		vpAssert(len(got) == want, "rebroadcast-is-exactly-the-pending-set")
+		pi, ci := -1, -1
+		for i, g := range got {
+			if g == hashes[0] {
+				pi = i
+			}
+			if g == hashes[1] {
+				ci = i
+			}
+		}
+		if pi >= 0 && ci >= 0 {
+			vpReach("parent-and-child-pending")
+			vpAssert(pi < ci, "parent-before-child")
+		}
+		// what the network reported as confirmed during this batch is no longer pending
+		for _, h := range hashes {
+			if e.confirmedByNet[h] && accepted[h] && !confirmed[h] {
+				confirmed[h] = true
+				vpReach("confirmed-by-the-network")
+			}
+		}
+	}
 	nev := vpParam("events", 3)
 	for ev := 0; ev < nev; ev++ {
-		switch vpRange("event", 0, 2) {
+		switch vpRange("event", 0, vpParam("eventkinds", 3)) {
 		case 0: // broadcast request
 			k := vpRange("tx", 0, 2)
 			var out error
@@ -132,49 +185,31 @@ func VerifH_C15_handler() {
 			e.ntfns <- blockntfns.NewBlockConnected(wire.BlockHeader{}, uint32(ev))
 			vpQuiesce()
 			vpReach("block")
-			// the batch is exactly accepted \ confirmed, parents before children
-			var got []chainhash.Hash
-			for _, c := range e.calls[before:] {
-				vpAssert(!c.initial && c.batch == batch, "calls-after-a-block-belong-to-its-rebroadcast")
-				got = append(got, c.tx)
-			}
-			want := 0
+			checkBatch(before, batch)
+		case 3: // two block events, the second while the first's rebroadcast still waits for its peers
+			anyP := false
 			for _, h := range hashes {
-				pending := accepted[h] && !confirmed[h]
-				n := 0
-				for _, g := range got {
-					if g == h {
-						n++
-					}
-				}
-				if pending {
-					want++
-					vpAssert(n == 1, "pending-tx-is-rebroadcast-once-per-block")
-				} else {
-					vpAssert(n == 0, "confirmed-rejected-or-unknown-tx-is-not-rebroadcast")
+				if accepted[h] && !confirmed[h] {
+					anyP = true
 				}
 			}
-			vpAssert(len(got) == want, "rebroadcast-is-exactly-the-pending-set")
-			pi, ci := -1, -1
-			for i, g := range got {
-				if g == hashes[0] {
-					pi = i
-				}
-				if g == hashes[1] {
-					ci = i
-				}
+			if !anyP {
+				continue
 			}
-			if pi >= 0 && ci >= 0 {
-				vpReach("parent-and-child-pending")
-				vpAssert(pi < ci, "parent-before-child")
-			}
-			// what the network reported as confirmed during this batch is no longer pending
-			for _, h := range hashes {
-				if e.confirmedByNet[h] && accepted[h] && !confirmed[h] {
-					confirmed[h] = true
-					vpReach("confirmed-by-the-network")
-				}
-			}
+			before := len(e.calls)
+			e.batches++
+			batch := e.batches
+			e.hold = make(chan struct{})
+			e.holding = true
+			e.ntfns <- blockntfns.NewBlockConnected(wire.BlockHeader{}, uint32(ev))
+			vpQuiesce()
+			e.ntfns <- blockntfns.NewBlockConnected(wire.BlockHeader{}, uint32(ev)+100) // must not start a second one
+			vpQuiesce()
+			e.holding = false
+			close(e.hold)
+			vpQuiesce()
+			vpReach("block-during-a-running-rebroadcast")
+			checkBatch(before, batch)
 		case 2: // the rescan reports a confirmation
 			k := vpRange("tx", 0, 2)
 			e.b.MarkAsConfirmed(hashes[k])
